@@ -19,7 +19,7 @@
 
    Repairs already applied to the modelled code (fixes/C14-*.diff): Conditioned and ByParty do not
    forward an omitted seat count (n_seats=None) positionally. *)
-From Coq Require Import ZArith List Bool.
+From Coq Require Import ZArith QArith List Bool.
 Import ListNotations.
 Open Scope Z_scope.
 
@@ -34,7 +34,8 @@ Inductive val :=
 | VInt (z : Z)
 | VKey (k : key)
 | VList (l : list val)
-| VDict (d : list (key * val)).
+| VDict (d : list (key * val))
+| VRat (q : Q).                      (* a Fraction that is not a whole number (reduced); whole numbers are VInt *)
 
 Inductive exn :=
 | Exn (code : Z)
@@ -52,6 +53,7 @@ Notation "m >>= f" := (rbind m f) (at level 50, left associativity).
 
 Definition E_TYPE := 9.  Definition E_VALUE := 6.  Definition E_KEY := 8.  Definition E_INDEX := 7.
 Definition E_STOP := 13. Definition E_ATTR := 15.  Definition E_UNMODELLED := 98.
+Definition E_VSE := 1.   Definition E_NIE := 2.    Definition E_FUEL := 99.
 Definition raise {X} (c : Z) : res X := Err (Exn c).
 
 Fixpoint pos_list_eqb (a b : list positive) : bool :=
@@ -103,18 +105,43 @@ Definition truthy (v : val) : bool :=
   | VNone => false | VInt z => negb (z =? 0) | VKey _ => true
   | VList l => match l with [] => false | _ => true end
   | VDict d => match d with [] => false | _ => true end
+  | VRat q => negb (Qeq_bool q 0)
   end.
 Definition is_zero (v : val) : bool := match v with VInt 0 => true | _ => false end.
 Definition is_none (v : val) : bool := match v with VNone => true | _ => false end.
 
 (* ------------------------------------------------------------------ parts shared by both semantics *)
 (* a + b as the wrappers use it (seat and vote counts; list concatenation exists in Python too) *)
+(* numbers: int, or Fraction (exact); a Fraction result that is whole is the same number as the int *)
+Definition to_q (v : val) : option Q :=
+  match v with VInt z => Some (inject_Z z) | VRat q => Some q | _ => None end.
+Definition of_q (q : Q) : val :=
+  let r := Qred q in match Qden r with 1%positive => VInt (Qnum r) | _ => VRat r end.
+Definition num2 (f : Q -> Q -> Q) (a b : val) : res val :=
+  match to_q a, to_q b with Some x, Some y => Ok (of_q (f x y)) | _, _ => raise E_TYPE end.
+
 Definition add_val (a b : val) : res val :=
   match a, b with
   | VInt x, VInt y => Ok (VInt (x + y))
   | VList x, VList y => Ok (VList (x ++ y))
+  | VRat _, VInt _ | VInt _, VRat _ | VRat _, VRat _ => num2 Qplus a b
   | _, _ => raise E_TYPE
   end.
+(* a - b, a * b, a < b on numbers (UnusedVotesDistributor, the seat count adjusters) *)
+Definition sub_val (a b : val) : res val :=
+  match a, b with VInt x, VInt y => Ok (VInt (x - y)) | _, _ => num2 Qminus a b end.
+Definition mul_val (a b : val) : res val :=
+  match a, b with VInt x, VInt y => Ok (VInt (x * y)) | _, _ => num2 Qmult a b end.
+Definition lt_val (a b : val) : res bool :=
+  match a, b with
+  | VInt x, VInt y => Ok (x <? y)
+  | _, _ => match to_q a, to_q b with
+            | Some x, Some y => Ok (negb (Qle_bool y x))
+            | _, _ => raise E_TYPE
+            end
+  end.
+(* max(a, b): b if b > a else a *)
+Definition max_val (a b : val) : res val := lt_val a b >>= fun c => Ok (if c then b else a).
 
 (* votelib.util.add_dict_to_dict(d1, d2) *)
 Definition add_dict (d1 d2 : dict) : res dict :=
@@ -154,7 +181,7 @@ Definition subset_votes (votes subset : val) : res val :=
 Definition empty_like (v : val) : res val :=
   match v with
   | VList _ => Ok (VList []) | VDict _ => Ok (VDict []) | VInt _ => Ok (VInt 0) | VNone => Ok VNone
-  | VKey _ => raise E_UNMODELLED
+  | VKey _ | VRat _ => raise E_UNMODELLED
   end.
 
 (* l[:n] *)
@@ -299,6 +326,7 @@ Definition sig_constit := SG [(KSeats, Some VNone); (KPrev, Some (VDict [])); (K
 Definition sig_cond := SG [(KSeats, Some VNone); (KPrev, Some (VDict []))] false [] true.
 Definition sig_fixed := SG [] false [] true.
 Definition sig_plist := SG [(KSeats, None)] false [(KPl, None); (KLv, Some VNone)] true.
+Definition sig_adj := SG [(KSeats, None); (KPrev, None); (KMax, Some (VDict []))] false [] false.   (* AdjustedSeatCount *)
 
 (* leaf kinds = the evaluate() signatures of the base evaluators *)
 Inductive lkind := LSel | LSelD | LDist | LThr | LThrP | LThrPR | LSDist | LOpen.
@@ -333,17 +361,25 @@ Inductive ev :=
 | Multi (rs : list ev) (depth : nat)              (* depth = MultistageDistributor.depth - 1 *)
 | TieBr (m : ev) (b : ev)
 | PListC (p : ev)                                 (* closed lists *)
-| PListO (p : ev) (le : ev) (c : option positive) (* open lists, optional list_votes_converter *).
+| PListO (p : ev) (le : ev) (c : option positive) (* open lists, optional list_votes_converter *)
+| VSys (e : ev)                                   (* votelib.VotingSystem: every argument is passed on *)
+| Unused (rs : list ev) (qs : list positive) (depth : nat)
+                                                  (* UnusedVotesDistributor: rounds, quota functions (arbitrary functions,
+                                                     answered by [leaf]), depth - 1 *)
+| AdjLeaf (c : positive) (e : ev)                 (* AdjustedSeatCount with an arbitrary calculator (answered by [leaf]) *)
+| AdjAllow (pe : ev) (e : ev)                     (* AdjustedSeatCount(AllowOverhang(pe), e) *)
+| AdjLevel (pe : ev) (e : ev) (fuel : nat)        (* AdjustedSeatCount(LevelOverhang(pe), e); fuel of the levelling loop (model only) *).
 
 Definition sig_of (t : ev) : sigt :=
   match t with
   | Leaf _ k => lsig k
-  | PreConv _ _ | PostConv _ _ | TieBr _ _ => sig_generic
+  | PreConv _ _ | PostConv _ _ | TieBr _ _ | VSys _ => sig_generic
   | Fixed _ _ => sig_fixed
   | Cond _ _ _ => sig_cond
   | ByCons _ _ | ByConsD _ _ | PreApp _ _ | PreAppD _ _ | RemApp _ | ByParty _ _ | ByPartyS _ => sig_constit
-  | Multi _ _ => sig_distr
+  | Multi _ _ | Unused _ _ _ => sig_distr
   | PListC _ | PListO _ _ _ => sig_plist
+  | AdjLeaf _ _ | AdjAllow _ _ | AdjLevel _ _ _ => sig_adj
   end.
 Definition attr_of (t : ev) : option bool := match t with Fixed _ _ => Some false | _ => None end.
 Definition acc_seats (t : ev) : bool := acc_seats_sig (attr_of t) (sig_of t).
@@ -354,10 +390,11 @@ Definition acc_prev (t : ev) : bool := acc_prev_sig (sig_of t).
 Fixpoint takes (t : ev) (k : kw) : bool :=
   match t with
   | Leaf _ lk => has_param (lsig lk) k
-  | PreConv _ e | PostConv e _ | TieBr e _ => takes e k
+  | PreConv _ e | PostConv e _ | TieBr e _ | VSys e => takes e k
   | Fixed e _ => negb (kw_eqb k KSeats) && takes e k
   | Cond _ e _ => kw_eqb k KSeats || kw_eqb k KPrev || takes e k
-  | ByCons _ _ | ByConsD _ _ | PreApp _ _ | PreAppD _ _ | RemApp _ | ByParty _ _ | ByPartyS _ | Multi _ _ =>
+  | ByCons _ _ | ByConsD _ _ | PreApp _ _ | PreAppD _ _ | RemApp _ | ByParty _ _ | ByPartyS _ | Multi _ _
+  | Unused _ _ _ | AdjLeaf _ _ | AdjAllow _ _ | AdjLevel _ _ _ =>
       kw_eqb k KSeats || kw_eqb k KPrev || kw_eqb k KMax
   | PListC p | PListO p _ _ => kw_eqb k KSeats || kw_eqb k KPl || kw_eqb k KLv || takes p k
   end.
@@ -369,6 +406,8 @@ Section Run.
   Variable conv : positive -> val -> res val.                         (* converter *)
 
   Definition named_list (r : kwrec) : list (option val) := map (kget r) all_kw.
+  Definition only (k : kw) (v : val) : kwrec := kset kw_none k (Some v).
+  Definition sa_npm (n p m : val) : kwrec := KW (Some n) (Some p) (Some m) None None None.
 
   (* ================================================================ helpers of both semantics *)
   (* Conditioned._sum_party_votes *)
@@ -465,6 +504,84 @@ Section Run.
     | VList ll, VInt z => Ok (VList (slice_to ll z))
     | _, _ => raise E_TYPE
     end.
+
+  (* --- UnusedVotesDistributor helpers (core.py L413-473); a quota function is an arbitrary function of
+     (total votes, seats), answered by [leaf q total [n_seats]] *)
+  (* _gained_seats *)
+  Fixpoint gained (d : nat) (el : val) : res val :=
+    as_dict el >>= fun dd =>
+    match d with
+    | O => sum_values dd
+    | S d' => fold_left (fun acc kv => acc >>= fun a => gained d' (snd kv) >>= fun g => add_val a g) dd (Ok (VInt 0))
+    end.
+  (* _subtract_gained_seats: a seat dictionary is reduced constituency by constituency, a number by all seats gained *)
+  Fixpoint sub_gained (d : nat) (n_seats el : val) : res val :=
+    match n_seats, d with
+    | VDict nd, S d' =>
+        as_dict el >>= fun ed =>
+        map_res (fun cn => sub_gained d' (snd cn) (dget_or ed (fst cn) (VDict [])) >>= fun x => Ok (fst cn, x)) nd
+        >>= fun r => Ok (VDict r)
+    | VDict _, O => raise E_UNMODELLED       (* a seat dictionary at depth 1: ill-typed, not modelled *)
+    | _, _ => gained d el >>= fun g => sub_val n_seats g
+    end.
+  (* _use_votes: every candidate loses quota * seats gained; VotingSystemError when that exceeds its votes.
+     depth >= 2: a seat NUMBER counts for every constituency (repair C14-unusedvotes-uniform-seats) *)
+  Fixpoint use_votes (q : positive) (d : nat) (votes el n_seats : val) : res val :=
+    match d with
+    | O =>
+        as_dict votes >>= fun vd => sum_values vd >>= fun total =>
+        leaf q total (named_list (only KSeats n_seats)) >>= fun quota_val =>
+        map_res (fun cv => as_dict el >>= fun ed =>
+                           mul_val quota_val (dget_or ed (fst cv) (VInt 0)) >>= fun ts =>
+                           lt_val (snd cv) ts >>= fun b =>
+                           if b then raise E_VSE else sub_val (snd cv) ts >>= fun r => Ok (fst cv, r)) vd
+        >>= fun r => Ok (VDict r)
+    | S d' =>
+        as_dict votes >>= fun vd =>
+        map_res (fun cv => as_dict el >>= fun ed =>
+                           use_votes q d' (snd cv) (dget_or ed (fst cv) (VDict []))
+                                     (match n_seats with VDict nd => dget_or nd (fst cv) (VInt 0) | _ => n_seats end)
+                           >>= fun r => Ok (fst cv, r)) vd
+        >>= fun r => Ok (VDict r)
+    end.
+
+  (* --- seat count adjusters (core.py AllowOverhang.calculate L547-574, LevelOverhang.calculate L600-640);
+     [E n mx] = self.evaluator.evaluate(votes, n, max_seats=mx) *)
+  Definition calc_allow (E : val -> val -> res val) (n prev mx : val) : res val :=
+    E n mx >>= fun prop =>
+    as_dict prev >>= fun pd =>
+    fold_left (fun acc cp => acc >>= fun adj =>
+                 as_dict prop >>= fun propd =>
+                 let pc := dget_or propd (fst cp) (VInt 0) in
+                 lt_val pc (snd cp) >>= fun b =>
+                 if b then sub_val (snd cp) pc >>= add_val adj else Ok adj) pd (Ok (VInt 0)).
+
+  (* any(prop_result.get(party, 0) < minimum for party, minimum in pmins) *)
+  Fixpoint any_below (prop : val) (pmins : dict) : res bool :=
+    match pmins with
+    | [] => Ok false
+    | (p, m) :: t => as_dict prop >>= fun propd =>
+                     lt_val (dget_or propd p (VInt 0)) m >>= fun b => if b then Ok true else any_below prop t
+    end.
+  Fixpoint level_loop (fuel : nat) (E : val -> val -> res val) (mx : val) (pmins : dict) (adj prop : val) : res val :=
+    any_below prop pmins >>= fun b =>
+    if b then
+      match fuel with
+      | O => raise E_FUEL
+      | S f => add_val adj (VInt 1) >>= fun adj' => E adj' mx >>= fun prop' => level_loop f E mx pmins adj' prop'
+      end
+    else Ok adj.
+  Definition calc_level (fuel : nat) (E : val -> val -> res val) (n prev mx : val) : res val :=
+    E n mx >>= fun prop =>
+    as_dict prop >>= fun propd =>
+    map_res (fun pg => as_dict prev >>= fun pd => max_val (dget_or pd (fst pg) (VInt 0)) (snd pg) >>= fun m => Ok (fst pg, m)) propd
+    >>= fun lowest =>
+    as_dict prev >>= fun pd =>
+    fold_left (fun acc cp => acc >>= fun dr => if dmem lowest (fst cp) then Ok dr else add_val dr (snd cp)) pd (Ok (VInt 0))
+    >>= fun drop =>
+    sub_val n drop >>= fun adj0 =>
+    level_loop fuel E mx lowest adj0 prop >>= fun adj =>
+    add_val adj drop >>= fun x => sub_val x n.
 
   (* tie replacement loop of TieBreaking.evaluate; [brk sub n] runs the tiebreaker *)
   Definition break_ties (brk : val -> val -> res val) (votes main : val) : res val :=
@@ -643,6 +760,45 @@ Section Run.
                                 subscript (nget b KPl) (fst pn) >>= fun cl =>
                                 run_impl le plv (PA [snd pn; cl] kw_none) >>= fun l => Ok (fst pn, l)) party_result
              >>= fun r => Ok (VDict r)
+    | VSys e => run_impl e votes pa
+    | Unused rs qs d =>
+        bind sig_distr pa >>= fun b =>
+        as_dict (nget b KPrev) >>= fun elected0 =>
+        if truthy (nget b KMax) then raise E_NIE
+        else
+        (fix go (rs : list ev) (qs : list (option positive)) (votes n_seats : val) (elected : dict) {struct rs} : res dict :=
+           match rs, qs with
+           | s :: rs', q :: qs' =>
+               run_impl s votes (call_n n_seats) >>= fun stage_res =>
+               as_dict stage_res >>= fun srd =>
+               add_stage d elected srd >>= fun elected' =>
+               match q with
+               | None => go rs' qs' votes n_seats elected'
+               | Some qf =>
+                   (* the votes used up and the seats left are computed from THIS stage's result *)
+                   use_votes qf d votes stage_res n_seats >>= fun votes' =>
+                   sub_gained d n_seats stage_res >>= fun n_seats' =>
+                   go rs' qs' votes' n_seats' elected'
+               end
+           | _, _ => Ok elected
+           end) rs (map Some qs ++ [None]) votes (nget b KSeats) elected0 >>= fun r => Ok (VDict r)
+    | AdjLeaf c e =>
+        bind sig_adj pa >>= fun b =>
+        leaf c votes (named_list (b_named b)) >>= fun seat_adj =>
+        add_val (nget b KSeats) seat_adj >>= fun n' =>
+        run_impl e votes (call_npm n' (nget b KPrev) (nget b KMax))
+    | AdjAllow pe e =>
+        bind sig_adj pa >>= fun b =>
+        calc_allow (fun n mx => run_impl pe votes (PA [n] (only KMax mx))) (nget b KSeats) (nget b KPrev) (nget b KMax)
+        >>= fun seat_adj =>
+        add_val (nget b KSeats) seat_adj >>= fun n' =>
+        run_impl e votes (call_npm n' (nget b KPrev) (nget b KMax))
+    | AdjLevel pe e fuel =>
+        bind sig_adj pa >>= fun b =>
+        calc_level fuel (fun n mx => run_impl pe votes (PA [n] (only KMax mx))) (nget b KSeats) (nget b KPrev) (nget b KMax)
+        >>= fun seat_adj =>
+        add_val (nget b KSeats) seat_adj >>= fun n' =>
+        run_impl e votes (call_npm n' (nget b KPrev) (nget b KMax))
     end.
 
   (* ================================================================ run_spec : by hand *)
@@ -651,8 +807,6 @@ Section Run.
      filled in - "calling the part with these named arguments". *)
   Definition accept (s : sigt) (sa : kwrec) : res bound := bind s (PA [] sa).
   Definition sa_get (b : bound) (k : kw) : val := nget b k.
-  Definition only (k : kw) (v : val) : kwrec := kset kw_none k (Some v).
-  Definition sa_npm (n p m : val) : kwrec := KW (Some n) (Some p) (Some m) None None None.
   Definition given (v : val) : option val := if is_none v then None else Some v.
 
   Fixpoint run_spec (t : ev) (votes : val) (sa : kwrec) {struct t} : res val :=
@@ -799,6 +953,46 @@ Section Run.
                                 run_spec le plv (KW (Some (snd pn)) None None None None (Some cl)) >>= fun l => Ok (fst pn, l))
                      party_result
              >>= fun r => Ok (VDict r)
+    | VSys e => run_spec e votes sa                                   (* the system object adds nothing *)
+    | Unused rs qs d =>
+        (* chain the stages: each one sees the votes not yet used up and the seats not yet given; the result is the
+           previous gains plus every stage's seats *)
+        accept sig_distr sa >>= fun b =>
+        as_dict (sa_get b KPrev) >>= fun elected0 =>
+        if truthy (sa_get b KMax) then raise E_NIE
+        else
+        (fix go (rs : list ev) (qs : list (option positive)) (votes n_seats : val) (elected : dict) {struct rs} : res dict :=
+           match rs, qs with
+           | s :: rs', q :: qs' =>
+               run_spec s votes (only KSeats n_seats) >>= fun stage_res =>
+               as_dict stage_res >>= fun srd =>
+               add_stage d elected srd >>= fun elected' =>
+               match q with
+               | None => go rs' qs' votes n_seats elected'
+               | Some qf =>
+                   use_votes qf d votes stage_res n_seats >>= fun votes' =>
+                   sub_gained d n_seats stage_res >>= fun n_seats' =>
+                   go rs' qs' votes' n_seats' elected'
+               end
+           | _, _ => Ok elected
+           end) rs (map Some qs ++ [None]) votes (sa_get b KSeats) elected0 >>= fun r => Ok (VDict r)
+    | AdjLeaf c e =>                                                  (* = evaluating with the adjusted seat count *)
+        accept sig_adj sa >>= fun b =>
+        leaf c votes (named_list (b_named b)) >>= fun seat_adj =>
+        add_val (sa_get b KSeats) seat_adj >>= fun n' =>
+        run_spec e votes (sa_npm n' (sa_get b KPrev) (sa_get b KMax))
+    | AdjAllow pe e =>
+        accept sig_adj sa >>= fun b =>
+        calc_allow (fun n mx => run_spec pe votes (KW (Some n) None (Some mx) None None None))
+                   (sa_get b KSeats) (sa_get b KPrev) (sa_get b KMax) >>= fun seat_adj =>
+        add_val (sa_get b KSeats) seat_adj >>= fun n' =>
+        run_spec e votes (sa_npm n' (sa_get b KPrev) (sa_get b KMax))
+    | AdjLevel pe e fuel =>
+        accept sig_adj sa >>= fun b =>
+        calc_level fuel (fun n mx => run_spec pe votes (KW (Some n) None (Some mx) None None None))
+                   (sa_get b KSeats) (sa_get b KPrev) (sa_get b KMax) >>= fun seat_adj =>
+        add_val (sa_get b KSeats) seat_adj >>= fun n' =>
+        run_spec e votes (sa_npm n' (sa_get b KPrev) (sa_get b KMax))
     end.
 End Run.
 
@@ -823,38 +1017,82 @@ Definition takes_spm (e : ev) : bool := takes e KSeats && takes e KPrev && takes
 Definition prev_implies_max (e : ev) : bool := implb (takes e KPrev) (takes e KMax).
 Definition is_open_leaf (e : ev) : bool := match e with Leaf _ LOpen => true | _ => false end.
 
+(* ---- seat counts and seatless parts.  A distributor apportioner (ByConstituency / PreApportioned) or ByParty's overall
+   evaluator may be SEATLESS (VotesPerSeat ...): core.apportion hands a seat NUMBER to the apportioner positionally without
+   looking at its signature, ByParty does the same with any seat count that is not None.  [seat_ok t v]: tree t may be
+   called with the seat count v (VNone = omitted); [seat_any t]: with any seat count (what [wt] asks where the count is
+   computed by a wrapper). *)
+Fixpoint seat_any (t : ev) : bool :=
+  match t with
+  | Leaf _ _ | Fixed _ _ | ByCons _ _ | PreApp _ _ | RemApp _ | ByPartyS _
+  | Unused _ _ _ | AdjLeaf _ _ | AdjAllow _ _ | AdjLevel _ _ _ => true
+  | PreConv _ e | PostConv e _ | TieBr e _ | VSys e | PListC e | PListO e _ _ | Cond _ e _ => seat_any e
+  | ByConsD _ ae | PreAppD _ ae => takes ae KSeats
+  | ByParty ov _ => takes ov KSeats
+  | Multi rs _ => forallb seat_any rs
+  end.
+Fixpoint seat_ok (t : ev) (v : val) : bool :=
+  match t with
+  | Leaf _ _ | Fixed _ _ | ByCons _ _ | PreApp _ _ | RemApp _ | ByPartyS _
+  | Unused _ _ _ | AdjLeaf _ _ | AdjAllow _ _ | AdjLevel _ _ _ => true
+  | PreConv _ e | PostConv e _ | TieBr e _ | VSys e | PListC e | PListO e _ _ => seat_ok e v
+  | Cond _ e _ => if takes e KSeats && negb (is_none v) then seat_ok e v else seat_ok e VNone
+  | ByConsD _ ae | PreAppD _ ae => match v with VInt _ => takes ae KSeats | _ => true end
+  | ByParty ov _ => is_none v || takes ov KSeats
+  | Multi rs _ => forallb (fun s => seat_ok s v) rs
+  end.
+Definition seat_of (sa : kwrec) : val := match k_seats sa with Some v => v | None => VNone end.
+Definition seat_fits (t : ev) (sa : kwrec) : bool := seat_ok t (seat_of sa).
+
 (* [wt]: every part is handed only arguments it takes ; [faithful]: the inspect-based dispatch
    agrees with what the inspected part takes *)
 Fixpoint wt (t : ev) : bool :=
   match t with
   | Leaf _ _ => true
-  | PreConv _ e | PostConv e _ => wt e
-  | Fixed e _ => takes e KSeats && wt e
-  | Cond el e _ => wt el && wt e
-  | ByCons e _ => takes e KSeats && prev_implies_max e && wt e
-  | ByConsD e ae => takes e KSeats && prev_implies_max e && wt e && takes ae KSeats && wt ae
-  | PreApp e _ => takes_spm e && wt e
-  | PreAppD e ae => takes_spm e && wt e && takes ae KSeats && wt ae
-  | RemApp e => takes_spm e && wt e
-  | ByParty ov al => takes ov KSeats && wt ov && takes al KSeats && prev_implies_max al && wt al
-  | ByPartyS ov => wt ov && takes ov KSeats && prev_implies_max ov
+  | PreConv _ e | PostConv e _ | VSys e => wt e
+  | Fixed e n => takes e KSeats && seat_ok e n && wt e
+  | Cond el e _ => seat_ok el VNone && wt el && wt e
+  | ByCons e _ => takes e KSeats && prev_implies_max e && seat_any e && wt e
+  | ByConsD e ae => takes e KSeats && prev_implies_max e && seat_any e && wt e && seat_any ae && wt ae
+  | PreApp e _ => takes_spm e && seat_any e && wt e
+  | PreAppD e ae => takes_spm e && seat_any e && wt e && seat_any ae && wt ae
+  | RemApp e => takes_spm e && seat_any e && wt e
+  | ByParty ov al => seat_any ov && wt ov && takes al KSeats && prev_implies_max al && seat_any al && wt al
+  | ByPartyS ov => wt ov && takes ov KSeats && prev_implies_max ov && seat_any ov
   | Multi rs _ => forallb (fun s => takes_spm s && wt s) rs
-  | TieBr m b => wt m && takes b KSeats && wt b
+  | TieBr m b => wt m && takes b KSeats && seat_any b && wt b
   | PListC p => takes p KSeats && wt p
   | PListO p le _ => takes p KSeats && wt p && is_open_leaf le
+  | Unused rs _ _ => forallb (fun s => takes s KSeats && seat_any s && wt s) rs
+  | AdjLeaf _ e => takes_spm e && seat_any e && wt e
+  | AdjAllow pe e | AdjLevel pe e _ =>
+      takes pe KSeats && takes pe KMax && seat_any pe && wt pe && takes_spm e && seat_any e && wt e
+  end.
+
+(* the typing of the first version of this model: apportioners and overall evaluators take a seat count *)
+Fixpoint seated (t : ev) : bool :=
+  match t with
+  | Leaf _ _ => true
+  | PreConv _ e | PostConv e _ | VSys e | Fixed e _ | ByCons e _ | PreApp e _ | RemApp e | ByPartyS e | PListC e
+  | AdjLeaf _ e => seated e
+  | Cond a b _ | TieBr a b | PListO a b _ | AdjAllow a b | AdjLevel a b _ => seated a && seated b
+  | ByConsD e ae | PreAppD e ae => seated e && takes ae KSeats && seated ae
+  | ByParty ov al => takes ov KSeats && seated ov && seated al
+  | Multi rs _ | Unused rs _ _ => forallb seated rs
   end.
 
 Fixpoint faithful (t : ev) : bool :=
   match t with
   | Leaf _ _ => true
-  | PreConv _ e | PostConv e _ | Fixed e _ | RemApp e | PreApp e _ | PListC e => faithful e
+  | PreConv _ e | PostConv e _ | Fixed e _ | RemApp e | PreApp e _ | PListC e | VSys e | AdjLeaf _ e => faithful e
   | Cond el e _ => insp_prev el && insp_seats e && insp_prev e && faithful el && faithful e
   | ByCons e _ => insp_prev e && faithful e
   | ByConsD e ae => insp_prev e && faithful e && faithful ae
   | PreAppD e ae => faithful e && faithful ae
   | ByParty ov al => insp_prev al && faithful ov && faithful al
   | ByPartyS ov => insp_prev ov && faithful ov
-  | Multi rs _ => forallb faithful rs
+  | Multi rs _ | Unused rs _ _ => forallb faithful rs
   | TieBr m b => faithful m && faithful b
   | PListO p le _ => faithful p && faithful le
+  | AdjAllow pe e | AdjLevel pe e _ => faithful pe && faithful e
   end.
